@@ -153,6 +153,17 @@ where
     }
 }
 
+#[cfg(rustaudio_dasp_verif)]
+impl<S> Bus<S>
+where
+    S: Signal,
+{
+    /// Verification hook (read-only): the number of frames currently held in the backlog.
+    pub fn verif_backlog_len(&self) -> usize {
+        self.node.borrow().buffer.len()
+    }
+}
+
 impl<S> SharedNode<S>
 where
     S: Signal,
